@@ -1,3 +1,286 @@
-import PySMT.Impl.Opt
+import PySMT.Proofs.C18Pareto
+/-!
+# C18 — Optimisation returns the true optimum and restores the solver
+
+Property theorems about the model `PySMT.Opt` (`Impl/Opt.lean`) of `pysmt/optimization/optimizer.py`.
+
+Reading guide.  `M` is the type of models, `A m` says that `m` satisfies the user's assertions,
+`obj i m : Int` is the value of the `i`-th goal term in `m` (`toNat`/`toInt` of a bit-vector value
+according to the goal's signedness).  The solver is an arbitrary oracle `o` with the single
+assumption `OracleSpec A obj o`: every `solve` call returns a model of the assertions and of the
+constraints the routine put on top iff one exists (which one is up to the solver, and may change
+from call to call).  `Feas A obj s.stack ex` is the feasible set: assertions, whatever is on the
+solver's stack when the routine is entered, and the assumptions `ex`.  The feasible set may be
+infinite.  `fuel` bounds the number of loop iterations of the model; outcome `.fuel` means "still
+running", every other outcome is what the Python routine returns / raises.
+
+All theorems below carry the hypothesis `supported` (the goal's logic is a key of the table in
+`_comparation_functions`) and are therefore named `…_partial`: for an Int objective whose term
+mentions bit-vectors or arrays (finding F24b, not repaired) the routines raise `KeyError`
+(`unsupported_goal_raises`), so the property as stated does not hold for those goals
+(`search_restores_full_fails`).
+-/
 namespace PySMT.Props.C18
+open PySMT.Opt PySMT.OptSpec
+
+variable {M : Type} {A : M → Prop} {obj : Nat → M → Int} {o : Oracle M}
+
+/-- `optimize` (linear or binary search; assumption based or push/pop based; minimisation or
+    maximisation; Int, unsigned BV or signed BV) returns a model of the assertions whose cost is
+    the value of the objective in that model and is the optimum over the whole feasible set.
+    Missing w.r.t. the property: goals with `supported = false` (F24b). -/
+theorem search_optimal_partial (hO : OracleSpec A obj o) (g : Goal) (gi : Nat) (hsup : g.supported = true)
+    (hDom : ∀ m, A m → castOk g.dom (obj gi m) = true)
+    (mx : Mixin) (strat : Strat) (extra : List Constraint) (fuel : Nat) (s s' : Solver M) (m : M) (c : Int)
+    (h : optimize o obj mx strat g gi extra fuel s = (.done (some (m, c)), s')) :
+    Feas A obj s.stack (effExtra mx extra) m ∧ c = obj gi m ∧
+      IsOptimum (sense g.dir) (Feas A obj s.stack (effExtra mx extra)) (obj gi) c := by
+  have hs := optimize_spec (gi := gi) hO hsup hDom mx strat extra fuel s
+  rw [h] at hs
+  rcases hs with hf | ⟨res, hres, _, _, _, _, hsome⟩
+  · cases hf
+  · cases hres
+    obtain ⟨h1, h2, h3⟩ := hsome m c rfl
+    exact ⟨h1, h2, ⟨m, h1, h2.symm⟩, fun m' hm' => (sense_le g _ _).2 (h3 m' hm')⟩
+
+/-- "no solution" is reported exactly when the assertions (with the assumptions) are unsatisfiable.
+    Missing: goals with `supported = false` (F24b). -/
+theorem search_none_iff_partial (hO : OracleSpec A obj o) (g : Goal) (gi : Nat) (hsup : g.supported = true)
+    (hDom : ∀ m, A m → castOk g.dom (obj gi m) = true)
+    (mx : Mixin) (strat : Strat) (extra : List Constraint) (fuel : Nat) (s s' : Solver M)
+    (res : Option (M × Int)) (h : optimize o obj mx strat g gi extra fuel s = (.done res, s')) :
+    res = none ↔ ¬ ∃ m, Feas A obj s.stack (effExtra mx extra) m := by
+  have hs := optimize_spec (gi := gi) hO hsup hDom mx strat extra fuel s
+  rw [h] at hs
+  rcases hs with hf | ⟨res', hres, _, _, _, hnone, _⟩
+  · cases hf
+  · cases hres; exact hnone
+
+/-- the assertion stack, the backtrack points and the "pop without push" flag are what they were
+    before the call, for both mix-ins and both strategies.  Missing: `supported = false` (F24b). -/
+theorem search_restores_partial (hO : OracleSpec A obj o) (g : Goal) (gi : Nat) (hsup : g.supported = true)
+    (hDom : ∀ m, A m → castOk g.dom (obj gi m) = true)
+    (mx : Mixin) (strat : Strat) (extra : List Constraint) (fuel : Nat) (s s' : Solver M)
+    (res : Option (M × Int)) (h : optimize o obj mx strat g gi extra fuel s = (.done res, s')) :
+    s'.stack = s.stack ∧ s'.marks = s.marks ∧ s'.bad = s.bad := by
+  have hs := optimize_spec (gi := gi) hO hsup hDom mx strat extra fuel s
+  rw [h] at hs
+  rcases hs with hf | ⟨res', _, e1, e2, e3, _, _⟩
+  · cases hf
+  · exact ⟨e1, e2, e3⟩
+
+/-- every bound handed to `mgr.Int` / `mgr.BV` / `mgr.SBV` during the search is representable:
+    the search never stops with a cast error (nor with any other error).
+    Missing: `supported = false` (F24b). -/
+theorem casts_in_range_partial (hO : OracleSpec A obj o) (g : Goal) (gi : Nat) (hsup : g.supported = true)
+    (hDom : ∀ m, A m → castOk g.dom (obj gi m) = true)
+    (mx : Mixin) (strat : Strat) (extra : List Constraint) (fuel : Nat) (s : Solver M) :
+    (optimize o obj mx strat g gi extra fuel s).1 = .fuel ∨
+      ∃ res, (optimize o obj mx strat g gi extra fuel s).1 = .done res := by
+  rcases optimize_spec (gi := gi) hO hsup hDom mx strat extra fuel s with hf | ⟨res, hres, _⟩
+  · exact Or.inl hf
+  · exact Or.inr ⟨res, hres⟩
+
+/-- if the optimum is attained (or nothing is feasible) the search stops: from some amount of fuel
+    on the model returns a result, for every oracle.  Missing: `supported = false` (F24b). -/
+theorem search_terminates_partial (hO : OracleSpec A obj o) (g : Goal) (gi : Nat) (hsup : g.supported = true)
+    (hDom : ∀ m, A m → castOk g.dom (obj gi m) = true)
+    (mx : Mixin) (strat : Strat) (extra : List Constraint) (s : Solver M)
+    (hatt : (∃ m, Feas A obj s.stack (effExtra mx extra) m) →
+      OptimumAttained (sense g.dir) (Feas A obj s.stack (effExtra mx extra)) (obj gi)) :
+    ∃ N, ∀ fuel, fuel ≥ N → ∃ res, (optimize o obj mx strat g gi extra fuel s).1 = .done res := by
+  obtain ⟨N, hN⟩ := optimize_terminates (gi := gi) hO hsup hDom mx strat extra s (by
+    intro hex
+    obtain ⟨c, ⟨mo, hmo, hc⟩, hopt⟩ := hatt hex
+    exact ⟨mo, fun m hm => by rw [hc]; exact (sense_le g _ _).1 (hopt m hm)⟩)
+  refine ⟨N, fun fuel hge => ?_⟩
+  rcases casts_in_range_partial hO g gi hsup hDom mx strat extra fuel s with hf | h
+  · exact absurd hf (hN fuel hge)
+  · exact h
+
+/-- MaxSMT with integer weights: `_optimize` turns the goal into the maximisation of
+    `Σ (if clause then weight else 0)`; the returned cost is the weight of the soft clauses satisfied
+    by the returned model and no feasible model satisfies a heavier set.
+    Missing: soft clauses over bit-vectors/arrays (`supported = false`, F24b). -/
+theorem maxsmt_opt_partial (hO : OracleSpec A obj o) (soft : List ((M → Bool) × Int)) (gi : Nat)
+    (hobj : ∀ m, obj gi m = maxsmtObj soft m)
+    (mx : Mixin) (strat : Strat) (fuel : Nat) (s s' : Solver M) (m : M) (c : Int)
+    (h : optimize o obj mx strat ⟨.max, .int, true⟩ gi [] fuel s = (.done (some (m, c)), s')) :
+    Feas A obj s.stack [] m ∧ c = maxsmtObj soft m ∧ ∀ m', Feas A obj s.stack [] m' → maxsmtObj soft m' ≤ c := by
+  have := search_optimal_partial hO ⟨.max, .int, true⟩ gi rfl (fun _ _ => rfl) mx strat [] fuel s s' m c h
+  rw [effExtra_nil] at this
+  obtain ⟨h1, h2, _, h3⟩ := this
+  refine ⟨h1, by rw [h2, hobj], fun m' hm' => ?_⟩
+  have := h3 m' hm'
+  simp only [sense, Sense.le] at this
+  rw [← hobj]; exact this
+
+/-- min-max goals (`MinMaxGoal`, objective `Max(terms)`): the returned cost is the largest term
+    value in the returned model and every feasible model has some term at least that large.
+    Missing: `supported = false` (F24b). -/
+theorem minmax_opt_partial (hO : OracleSpec A obj o) (t : M → Int) (ts : List (M → Int)) (gi : Nat) (dom : Dom)
+    (hobj : ∀ m, obj gi m = maxOf t ts m) (hDom : ∀ m, A m → castOk dom (obj gi m) = true)
+    (mx : Mixin) (strat : Strat) (fuel : Nat) (s s' : Solver M) (m : M) (c : Int)
+    (h : optimize o obj mx strat ⟨.min, dom, true⟩ gi [] fuel s = (.done (some (m, c)), s')) :
+    Feas A obj s.stack [] m ∧ c = maxOf t ts m ∧ ∀ m', Feas A obj s.stack [] m' → c ≤ maxOf t ts m' := by
+  have := search_optimal_partial hO ⟨.min, dom, true⟩ gi rfl hDom mx strat [] fuel s s' m c h
+  rw [effExtra_nil] at this
+  obtain ⟨h1, h2, _, h3⟩ := this
+  refine ⟨h1, by rw [h2, hobj], fun m' hm' => ?_⟩
+  have := h3 m' hm'
+  simp only [sense, Sense.le] at this
+  rw [← hobj]; exact this
+
+/-- max-min goals (`MaxMinGoal`, objective `Min(terms)`).  Missing: `supported = false` (F24b). -/
+theorem maxmin_opt_partial (hO : OracleSpec A obj o) (t : M → Int) (ts : List (M → Int)) (gi : Nat) (dom : Dom)
+    (hobj : ∀ m, obj gi m = minOf t ts m) (hDom : ∀ m, A m → castOk dom (obj gi m) = true)
+    (mx : Mixin) (strat : Strat) (fuel : Nat) (s s' : Solver M) (m : M) (c : Int)
+    (h : optimize o obj mx strat ⟨.max, dom, true⟩ gi [] fuel s = (.done (some (m, c)), s')) :
+    Feas A obj s.stack [] m ∧ c = minOf t ts m ∧ ∀ m', Feas A obj s.stack [] m' → minOf t ts m' ≤ c := by
+  have := search_optimal_partial hO ⟨.max, dom, true⟩ gi rfl hDom mx strat [] fuel s s' m c h
+  rw [effExtra_nil] at this
+  obtain ⟨h1, h2, _, h3⟩ := this
+  refine ⟨h1, by rw [h2, hobj], fun m' hm' => ?_⟩
+  have := h3 m' hm'
+  simp only [sense, Sense.le] at this
+  rw [← hobj]; exact this
+
+/-- `boxed_optimize`: solver restored; `None` exactly when there are goals and the assertions are
+    unsatisfiable; otherwise one entry per goal, in order, each a feasible model with the optimum of
+    that goal.  Missing: `supported = false` (F24b). -/
+theorem boxed_opt_partial (hO : OracleSpec A obj o) (mx : Mixin) (strat : Strat) (fuel : Nat)
+    (goals : List (Nat × Goal)) (hok : GoalsOk A obj goals) (s s' : Solver M)
+    (res : Option (List (Nat × M × Int))) (h : boxed o obj mx strat fuel goals s = (.done res, s')) :
+    s'.stack = s.stack ∧ s'.marks = s.marks ∧ s'.bad = s.bad ∧
+    (res = none ↔ goals ≠ [] ∧ ¬ ∃ m, Feas A obj s.stack [] m) ∧
+    ∀ l, res = some l →
+      All2 (fun (p : Nat × Goal) (q : Nat × M × Int) =>
+        q.1 = p.1 ∧ Feas A obj s.stack [] q.2.1 ∧ q.2.2 = obj p.1 q.2.1 ∧
+        IsOptimum (sense p.2.dir) (Feas A obj s.stack []) (obj p.1) q.2.2) goals l := by
+  have hs := boxed_spec hO mx strat fuel goals s hok
+  rw [h] at hs
+  rcases hs with hf | ⟨res', hres, e1, e2, e3, e4, e5⟩
+  · cases hf
+  · cases hres; exact ⟨e1, e2, e3, e4, e5⟩
+
+/-- `lexicographic_optimize` (as repaired for F24a): solver restored (in particular the level
+    pushed by `_setup` is popped on success as well); `None` exactly when unsatisfiable; otherwise
+    a feasible model whose costs are the goal values in that model and are the exact lexicographic
+    optimum.  Missing: `supported = false` (F24b); the empty goal list (Python: `UnboundLocalError`). -/
+theorem lexi_opt_partial (hO : OracleSpec A obj o) (mx : Mixin) (strat : Strat) (fuel : Nat)
+    (goals : List (Nat × Goal)) (hne : goals ≠ []) (hok : GoalsOk A obj goals) (s s' : Solver M)
+    (res : Option (M × List Int)) (h : lexicographic o obj mx strat fuel goals s = (.done res, s')) :
+    s'.stack = s.stack ∧ s'.marks = s.marks ∧ s'.bad = s.bad ∧
+    (res = none ↔ ¬ ∃ m, Feas A obj s.stack [] m) ∧
+    ∀ m vs, res = some (m, vs) →
+      Feas A obj s.stack [] m ∧ vs = goals.map (fun p => obj p.1 m) ∧
+      IsLexOptimum (specGoals obj goals) (Feas A obj s.stack []) vs := by
+  have hs := lexi_spec hO mx strat fuel goals hne hok s
+  rw [h] at hs
+  rcases hs with hf | ⟨res', hres, e1, e2, e3, e4, e5⟩
+  · cases hf
+  · cases hres
+    refine ⟨e1, e2, e3, e4, fun m vs hm => ?_⟩
+    obtain ⟨g1, vs', g2, g3, g4⟩ := e5 m vs hm
+    simp only [List.nil_append] at g2
+    subst g2
+    exact ⟨g1, g3, g4⟩
+
+/-- `pareto_optimize`, consumed completely: solver restored; every yielded model is feasible and
+    Pareto-optimal and is yielded with its own cost vector; no cost vector is yielded twice; every
+    Pareto-optimal cost vector is yielded.  So the yielded cost vectors are exactly the Pareto front,
+    each once.
+    Missing (hence `_partial`): termination -- the statement is about runs of the model that finish
+    (`.done`); the routine does not terminate when the front or a chain of improvements is infinite
+    (possible for unbounded Int objectives); `supported = false` (F24b); the empty goal list. -/
+theorem pareto_front_partial (hO : OracleSpec A obj o) (mx : Mixin) (goals : List (Nat × Goal)) (fuel : Nat)
+    (hsup : ∀ p ∈ goals, p.2.supported = true) (hne : goals ≠ []) (s s' : Solver M)
+    (res : List (M × List Int)) (h : pareto o obj mx goals fuel s = (.done res, s')) :
+    s'.stack = s.stack ∧ s'.marks = s.marks ∧ s'.bad = s.bad ∧
+    (∀ q ∈ res, ParetoOptimal (specGoals obj goals) (Feas A obj s.stack []) q.1 ∧
+                q.2 = costs (specGoals obj goals) q.1) ∧
+    (res.map Prod.snd).Pairwise (· ≠ ·) ∧
+    (∀ m, ParetoOptimal (specGoals obj goals) (Feas A obj s.stack []) m →
+      costs (specGoals obj goals) m ∈ res.map Prod.snd) := by
+  have hs := pareto_spec hO mx goals fuel hsup hne s
+  rw [h] at hs
+  rcases hs with hf | ⟨found, hres, e1, e2, e3, f1, f2, f3⟩
+  · cases hf
+  · cases hres
+    have hc : ∀ p : M, (goals.map (fun (x : Nat × Goal) => obj x.1 p)) = costs (specGoals obj goals) p := by
+      intro p; simp [costs, specGoals]
+    refine ⟨e1, e2, e3, ?_, ?_, ?_⟩
+    · intro q hq
+      simp only [accOf, List.mem_map] at hq
+      obtain ⟨p, hp, rfl⟩ := hq
+      exact ⟨f1 p hp, hc p⟩
+    · simp only [accOf, List.map_map]
+      rw [List.pairwise_map]
+      refine f2.imp ?_
+      intro a b hab
+      simpa [hc] using hab
+    · intro m hm
+      obtain ⟨p, hp, hpe⟩ := f3 m hm
+      simp only [accOf, List.map_map, List.mem_map]
+      exact ⟨p, hp, by simp [hc, hpe]⟩
+
+/-! ## What happens outside `supported` (finding F24b) -/
+
+/-- a goal whose logic is not in the comparison table: `KeyError` after `_setup`, one level stays
+    pushed -/
+theorem unsupported_goal_raises (g : Goal) (gi : Nat) (hsup : g.supported = false)
+    (mx : Mixin) (strat : Strat) (extra : List Constraint) (fuel : Nat) (s : Solver M) :
+    optimize o obj mx strat g gi extra fuel s = (.keyErr, s.push) :=
+  optimize_unsupported hsup mx strat extra fuel s
+
+/-- the property's "leaves the assertion stack as it found it", without the `supported` hypothesis -/
+def search_restores_full_statement : Prop :=
+  ∀ (o : Oracle Unit) (g : Goal) (s : Solver Unit) (fuel : Nat),
+    (optimize o (fun _ _ => 0) .sua .linear g 0 [] fuel s).2.marks = s.marks
+
+/-- … does not hold (witness: any unsupported goal) -/
+theorem search_restores_full_fails : ¬ search_restores_full_statement := by
+  intro h
+  have := h (fun _ _ => none) ⟨.min, .int, false⟩ {} 0
+  simp [optimize, Solver.push] at this
+
+/-! ## Non-vacuity: the hypotheses are satisfiable and the conclusions are about real runs -/
+
+/-- a concrete oracle over the models `0 … 5` of `x` with objective `x` -/
+def exOracle (obj : Nat → Int → Int) : Oracle Int := fun _ cs =>
+  ([0, 1, 2, 3, 4, 5] : List Int).find? (fun m => cs.all (fun c => c.holds obj m))
+
+theorem exOracle_spec (obj : Nat → Int → Int) :
+    OracleSpec (fun m : Int => m ∈ ([0, 1, 2, 3, 4, 5] : List Int)) obj (exOracle obj) := by
+  intro n cs
+  refine ⟨?_, ?_⟩
+  · intro m hm
+    have h1 := List.find?_some hm
+    have h2 := List.mem_of_find?_eq_some hm
+    exact ⟨h2, fun c hc => (List.all_eq_true.1 h1) c hc⟩
+  · intro hn m hm hall
+    have := List.find?_eq_none.1 hn m hm
+    exact this (List.all_eq_true.2 hall)
+
+example : (match (optimize (exOracle (fun _ m => m)) (fun _ m => m) .sua .binary ⟨.max, .int, true⟩ 0 [] 20 {}).1 with
+    | .done (some (m, c)) => m == 5 && c == 5 | _ => false) = true := by decide
+
+example : (match (optimize (exOracle (fun _ m => m)) (fun _ m => m) .incr .linear ⟨.min, .ubv 3, true⟩ 0 [] 20 {}).1 with
+    | .done (some (m, c)) => m == 0 && c == 0 | _ => false) = true := by decide
+
+example : (match (lexicographic (exOracle (fun i m => if i = 0 then m % 2 else m)) (fun i m => if i = 0 then m % 2 else m) .incr .binary 20
+      [(0, ⟨.max, .int, true⟩), (1, ⟨.min, .int, true⟩)] {}).1 with
+    | .done (some (m, vs)) => m == 1 && vs == [1, 1] | _ => false) = true := by decide
+
+example : (match (pareto (exOracle (fun i m => if i = 0 then m else (m - 3) * (m - 3))) (fun i m => if i = 0 then m else (m - 3) * (m - 3)) .sua
+      [(0, ⟨.min, .int, true⟩), (1, ⟨.min, .int, true⟩)] 20 {}).1 with
+    | .done l => l.map Prod.snd == [[0, 9], [1, 4], [2, 1], [3, 0]] | _ => false) = true := by decide
+
+/-- the hypotheses of `search_optimal_partial` hold for the concrete run above (so the theorem says
+    something about it) -/
+example : ∃ m c s', optimize (exOracle (fun _ m => m)) (fun _ m => m) .sua .binary ⟨.max, .int, true⟩ 0 [] 20 {} = (.done (some (m, c)), s') ∧
+    IsOptimum .max (Feas (fun m : Int => m ∈ ([0, 1, 2, 3, 4, 5] : List Int)) (fun _ m => m) [] []) (fun m => m) c := by
+  refine ⟨_, _, _, rfl, ?_⟩
+  exact (search_optimal_partial (exOracle_spec _) ⟨.max, .int, true⟩ 0 rfl (fun _ _ => rfl) .sua .binary [] 20 {} _ _ _ rfl).2.2
+
 end PySMT.Props.C18
